@@ -3,6 +3,7 @@
 package rt
 
 import (
+	"fmt"
 	"net/http"
 	"net/http/httptest"
 	"strings"
@@ -224,6 +225,7 @@ func RootsTerm(t *fox.VerifTree, rid func(*fox.VerifNode) uint64) string {
 // ---------- observations ----------
 
 type Obs struct {
+	Panic   string // non-empty: the implementation panicked
 	Found   bool
 	Pattern string
 	Tsr     bool
@@ -231,6 +233,9 @@ type Obs struct {
 }
 
 func (o Obs) Term() string {
+	if o.Panic != "" {
+		return "OPanic"
+	}
 	if !o.Found {
 		return "ONone"
 	}
@@ -251,14 +256,19 @@ func NewRequest(method, host, path string) *http.Request {
 }
 
 // Lookup observes Router.Lookup (non-lazy: params recorded).
-func Lookup(f *fox.Router, method, host, path string) Obs {
+func Lookup(f *fox.Router, method, host, path string) (o Obs) {
+	defer func() {
+		if r := recover(); r != nil {
+			o = Obs{Panic: fmt.Sprint(r)}
+		}
+	}()
 	w := httptest.NewRecorder()
 	_, c := fox.NewTestContext(w, NewRequest(method, host, path))
 	rte, cc, tsr := f.Lookup(c.Writer(), NewRequest(method, host, path))
 	if rte == nil {
 		return Obs{}
 	}
-	o := Obs{Found: true, Pattern: rte.Pattern(), Tsr: tsr}
+	o = Obs{Found: true, Pattern: rte.Pattern(), Tsr: tsr}
 	for p := range cc.Params() {
 		o.Params = append(o.Params, [2]string{p.Key, p.Value})
 	}
@@ -330,7 +340,15 @@ func OverlapSet(r *hx.Rand, n int) (pats []string, target string) {
 
 // OtherEntryPoints reports whether Txn.Lookup, Txn.Reverse, Iter.Reverse (router and
 // transaction) and ServeHTTP select the same route / tsr (/ params) as Router.Lookup did.
-func OtherEntryPoints(f *fox.Router, method, host, path string, want Obs, ignoreTS bool) (bool, string) {
+func OtherEntryPoints(f *fox.Router, method, host, path string, want Obs, ignoreTS bool) (ok bool, detail string) {
+	defer func() {
+		if r := recover(); r != nil {
+			ok, detail = false, "panic: "+fmt.Sprint(r)
+		}
+	}()
+	if want.Panic != "" {
+		return false, "Lookup panicked"
+	}
 	txn := f.Txn(false)
 	defer txn.Abort()
 	// Txn.Lookup
